@@ -13,6 +13,11 @@ R3  generator: of the loops in parse.y that distribute a rule into scset[]/scbol
     and the default-rule loop is unguarded; every loop over all conditions runs i = 1 .. lastsc inclusive.
 R4  two start states per condition: ntod()'s num_start_states = lastsc * K and the runtime's 1 + K*s / (x-1)/K
     agree (K read from the IR on both sides).
+R6  the first yylex() call keeps a start condition selected before it (yybegin() / yy_push_state() before the first
+    call, YY_USER_INIT): in every variant every store of a constant to the start state in yylex outside the rule arms
+    (the first-call initialisation) is control dependent, on the CFG, on the zero edge of a test "start state == 0" of
+    the same register, and no other store of the register lies between that test and the store.  The initialisation
+    may only give a default to a scanner that has none yet.
 """
 import re
 import ir, flow, variants
@@ -541,13 +546,56 @@ def r4(ctx, sc, K, kins):
                         rep.fail('C05.R4', sc.key('C05.R4', c, 'yystart'), where(w), 'start condition is recovered as (yy_start - %s) / %s, generator uses %d states per condition from 1 [variant %s]' % (o, kk, K, v.name), variant=v.describe())
     return n
 
+# ---------------------------------------------------------------- R6
+
+def r6(ctx, sc):
+    """stores of a constant to yy_start in yylex outside the rule arms only give a default: they run only on the `yy_start == 0`
+    edge of a test of the same register (control dependence on the plain CFG, not source order)"""
+    rep = ctx.rep; v = sc.v; n = 0
+    for f in sc.fns('yylex'):
+        sw = action_switch(f)
+        if sw is None: continue                     # yyclass stub
+        cfg = sc.prog.cfg(f, cut=False); res = ir.Resolver(f)
+        allst = stores_of(sc, f, 'yy_start')
+        for x in allst:
+            if cfg.dominates(sw.blk, x.blk): continue           # rule arms: user actions (the yybegin macro)
+            if x.ops[0][0] != 'int': continue                   # not a constant: R1 (init-store) / R4
+            n += 1
+            guard = None; stale = None
+            for br, t in cfg.control_deps_closure(x.blk):
+                con = S.edge_constraint(f, br, t.name)
+                if con is None or con[0] != 'eq': continue
+                a, b = S.strip_ext(f, con[1]), S.strip_ext(f, con[2])
+                if a == ('int', 0): a, b = b, a
+                if b != ('int', 0): continue
+                d = f.def_of(a)
+                if d is None or d.op != 'load' or not sc.is_var(res.loc(d.ops[0]), 'yy_start'): continue
+                # the tested value is still the value of the register when the store runs
+                between = [y for y in allst if y is not x and y in cfg.reach(d, avoid=[x]) and x in cfg.reach(y, avoid=[d])]
+                if between: stale = between[0]; continue
+                guard = br; break
+            key = sc.key('C05.R6', 'yylex', 'first-call-start-state:unguarded')
+            if guard is not None:
+                rep.ok('C05.R6', '%s yylex:%s yy_start = %d only on the zero edge of the test of yy_start @%s' % (v.name, x.line, x.ops[0][1], guard.line))
+            elif stale is not None:
+                rep.fail('C05.R6', key, where(x), 'the first-call initialisation in yylex stores %d to the start state under a test of the start state against 0, '
+                         'but the register is written again (%s) between the test and the store [variant %s]' % (x.ops[0][1], where(stale), v.name), variant=v.describe())
+            else:
+                rep.fail('C05.R6', key, where(x),
+                         'yylex stores the constant %d to the start state outside the rule actions without being control dependent on a test "start state == 0": '
+                         'the first call of yylex() forces this state and discards a start condition selected before it (yybegin()/yy_push_state() before the '
+                         'first call, YY_USER_INIT) [variant %s]' % (x.ops[0][1], v.name), variant=v.describe(),
+                         replay_input='%x X\n%%\n<X>a  { return 1; }\na  { return 2; }\n%%\n-- main: yybegin(X) (reentrant: after yylex_init) before the first yylex(); '
+                                      'input "a" must return 1, returns 2 when the first call resets the start state')
+    return n
+
 # ---------------------------------------------------------------- driver
 
 def run(ctx):
     rep = ctx.rep
     vs = ctx.variants()
     rep.require(len(vs) >= 100, 'only %d scanner variants compiled to IR' % len(vs))
-    n1 = n2 = n4 = 0; stackv = 0
+    n1 = n2 = n4 = n6 = 0; stackv = 0; backs6 = set()
     kins, K = r4_generator(ctx)
     rep.ok('C05.R4', 'dfa.c:%s ntod: num_start_states = lastsc * %d' % (kins.line, K))
     backs = set()
@@ -559,8 +607,12 @@ def run(ctx):
         r2_reset(ctx, sc)
         n2 += k
         n4 += r4(ctx, sc, K, kins)
+        k = r6(ctx, sc)
+        if k: backs6.add(v.backend)
+        n6 += k
     n3 = r3(ctx)
     rep.require(backs >= {'nr', 'r', 'cxx', 'c99', 'go'}, 'C05.R2 ran only on back ends %s' % sorted(backs))
+    rep.require(backs6 >= {'nr', 'r', 'cxx', 'c99', 'go'}, 'C05.R6 found a first-call initialisation of the start state only in back ends %s' % sorted(backs6))
     rep.setcount('variants_analysed', len(vs))
     rep.setcount('variants_with_start_stack', stackv)
     rep.setcount('functions_checked_for_yy_start_writes', n1)
@@ -568,6 +620,7 @@ def run(ctx):
     rep.floor('C05.R2', 250, 'push/pop/top in each of >=55 variants with %option stack, plus the reset pairing in the initialisation function of >=100 variants')
     rep.floor('C05.R3', 6, '5 distribution stores + the <*> loop in parse.y')
     rep.floor('C05.R4', 250, 'ntod + >=2 sites in every variant with start-condition functions')
+    rep.floor('C05.R6', 115, 'one first-call initialisation store in yylex of each of >=115 variants')
     rep.undecided += ['which rules are active for a given input in a given start condition (value-level: NFA construction)',
                       'LIFO order of the values on the start-condition stack',
                       'user code that assigns yy_start directly']
@@ -581,4 +634,5 @@ def run(ctx):
         'Who-may-write analysis of the start-state register over the LLVM IR of %d instantiated scanner variants (all five back ends, call graph with '
         'C++ virtual calls resolved through the class vtable); relational check of the bounds guards of the start-condition stack (edge predicate over '
         'the same register, tracked through the increments/decrements); control-dependence check of the rule-distribution loops in the IR of parse.c; '
-        'constant agreement between dfa.c:ntod and the runtime start-state arithmetic.' % len(vs))
+        'constant agreement between dfa.c:ntod and the runtime start-state arithmetic; control dependence of the first-call initialisation of the '
+        'start state in yylex on a test of the same register against 0.' % len(vs))
